@@ -74,6 +74,9 @@ static void run_case(const std::string& cid, Toks& t) {
     MPI_Barrier(MPI_COMM_WORLD);          // keep the ranks in the same case, so that a crash is attributed to it
     if (op == "strength") {
         int sym = t.next_int(); double theta = t.next_num(); int tap = t.next_int(); int ppn = t.next_int();
+        // the tens digit of the ppn token selects the state the operand is in when strength() is called:
+        // 0 as assembled, 1 after sort(), 2 after sort() + move_diag(), 3 after an earlier strength() call on the same object
+        int prep = ppn / 10; ppn = ppn % 10;
         int nv = t.next_int(); int n = t.next_int(); std::vector<int> vars = t.ints(n);
         ParLit L; L.parse(t);
         if (!L.usable()) return;
@@ -81,6 +84,9 @@ static void run_case(const std::string& cid, Toks& t) {
         std::string seq;                       // printed after the distributed result, so that a crash leaves the case without output
         if (g_rank == 0) {
             CSRMatrix* A = seq_csr(L);
+            if (prep == 1) A->sort();
+            else if (prep == 2) { A->sort(); A->move_diag(); }
+            else if (prep == 3) { CSRMatrix* S0 = A->strength(ty == Classical ? Symmetric : Classical, 0.5, nv, nv > 1 ? vars.data() : NULL); delete S0; }
             CSRMatrix* S = A->strength(ty, theta, nv, nv > 1 ? vars.data() : NULL);
             seq = std::to_string(S->n_rows) + " " + csr_rows_str(S);
             delete S; delete A;
@@ -89,6 +95,9 @@ static void run_case(const std::string& cid, Toks& t) {
         ParCSRMatrix* A = L.csr();
         if (tap) A->init_tap_communicators();
         int* lv = (nv > 1) ? vars.data() + A->partition->first_local_row : NULL;
+        if (prep == 1) A->sort();
+        else if (prep == 2) { A->sort(); A->on_proc->move_diag(); }
+        else if (prep == 3) { ParCSRMatrix* S0 = A->strength(ty == Classical ? Symmetric : Classical, 0.5, tap != 0, nv, lv); delete S0; }
         ParCSRMatrix* S = A->strength(ty, theta, tap != 0, nv, lv);
         std::string par = par_rows_str(S);
         delete S; delete A;
